@@ -310,6 +310,34 @@ class StickyRegressor(BaseEstimator, RegressorMixin):
         return self.intercept_ + self.coef_ * X.reshape(X.shape[0], -1)[:, 0]
 
 
+class DomainClassifier(CentroidClassifier):
+    """a model that refuses to extrapolate: any row outside the box of its own training rows (widened by one range on each side) raises
+    ValueError in every prediction method, as a spline with extrapolation='error' does.  A model trained on few rows has a narrower domain
+    than one trained on all of them."""
+
+    def fit(self, X, y, sample_weight=None):
+        CentroidClassifier.fit(self, X, y, sample_weight)
+        X = np.asarray(X, dtype=np.float64)
+        span = np.maximum(np.ptp(X, axis=0), 1.0)
+        self.lo_, self.hi_ = X.min(axis=0) - span, X.max(axis=0) + span
+        return self
+
+    def _inside(self, X):
+        X = np.asarray(X, dtype=np.float64)
+        if X.size and (np.any(X < self.lo_) or np.any(X > self.hi_)):
+            raise ValueError("DomainClassifier: a row lies outside the training domain")
+        return X
+
+    def decision_function(self, X):
+        return CentroidClassifier.decision_function(self, self._inside(X))
+
+    def predict_proba(self, X):
+        return CentroidClassifier.predict_proba(self, self._inside(X))
+
+    def predict(self, X):
+        return self.classes_[np.argmax(CentroidClassifier.predict_proba(self, self._inside(X)), axis=1)]
+
+
 class BiasedClassifier(CentroidClassifier):
     """a classifier whose predict is NOT the argmax of its predict_proba (a decision threshold moved on purpose, as
     FixedThresholdClassifier or a cost-sensitive rule do): the last class in classes_ wins as soon as its probability reaches a quarter
